@@ -229,7 +229,7 @@ theorem sim_m (cs : SpaceMap) (st : IState) (ss : SState) (hs : Sim cs st ss) (p
   refine ⟨pushSeg st (.m p), ?_, ?_⟩
   · simp only [tokens, nums_eq, exec_operands, exec_single]
     rw [doOp_call .m 2 (by decide) (by decide) st _ (by simp)]
-    simp [call, allNums, safeFloat]
+    simp [call, doSeg_m]
   · exact { ctm := hs.ctm, gs := hs.gs, gstack := hs.gstack,
             path := by simp [pushSeg, stepS, enc_append, hs.path, enc, enc1, tail1],
             ok := okFrom_snoc_explicit _ _ _ _ rfl hs.ok, out := hs.out, csmap := hs.csmap }
@@ -245,19 +245,19 @@ theorem sim_seg (cs : SpaceMap) (st : IState) (ss : SState) (hs : Sim cs st ss) 
     | l p =>
       simp only [tokens, segToks, nums_eq, exec_operands, exec_single]
       rw [doOp_call .l 2 (by decide) (by decide) st _ (by simp)]
-      simp [call, allNums, safeFloat, Seg.toPSeg]
+      simp [call, doSeg_l, Seg.toPSeg]
     | c a b d =>
       simp only [tokens, segToks, nums_eq, exec_operands, exec_single]
       rw [doOp_call .c 6 (by decide) (by decide) st _ (by simp)]
-      simp [call, allNums, safeFloat, Seg.toPSeg]
+      simp [call, doSeg_c, Seg.toPSeg]
     | v a b =>
       simp only [tokens, segToks, nums_eq, exec_operands, exec_single]
       rw [doOp_call .v 4 (by decide) (by decide) st _ (by simp)]
-      simp [call, allNums, safeFloat, Seg.toPSeg]
+      simp [call, doSeg_v, Seg.toPSeg]
     | y a b =>
       simp only [tokens, segToks, nums_eq, exec_operands, exec_single]
       rw [doOp_call .y 4 (by decide) (by decide) st _ (by simp)]
-      simp [call, allNums, safeFloat, Seg.toPSeg]
+      simp [call, doSeg_y, Seg.toPSeg]
   · exact { ctm := hs.ctm, gs := hs.gs, gstack := hs.gstack,
             path := by simp [pushSeg, stepS, ha.1, hs.path],
             ok := ha.2, out := hs.out, csmap := hs.csmap }
@@ -405,7 +405,7 @@ theorem sim_cm (cs : SpaceMap) (st : IState) (ss : SState) (hs : Sim cs st ss) (
   refine ⟨{ st with ctm := mult_matrix (a, b, c, d, e, f) st.ctm }, ?_, ?_⟩
   · simp only [tokens, nums_eq, exec_operands, exec_single]
     rw [doOp_call .cm 6 (by decide) (by decide) st _ (by simp)]
-    simp [call, allNums, safeFloat]
+    simp [call, allNums, safeFloat, cmPremultiplies]
   · exact { ctm := by simp [stepS, hs.ctm], gs := hs.gs, gstack := hs.gstack, path := hs.path, ok := hs.ok,
             out := hs.out, csmap := hs.csmap }
 
@@ -468,19 +468,24 @@ theorem sim_cmyk (cs : SpaceMap) (hdev : devOk cs) (st : IState) (ss : SState) (
 theorem initialColour_eq_iso (sp : Space) : initialColour sp = isoInit sp := by
   obtain ⟨name, n⟩ := sp
   unfold initialColour isoInit
-  by_cases h0 : n = 0
-  · subst h0; simp
+  simp only [initNoneFamily, initMaxComponents, initCmykFamily, initCmyk, initOneFamilies]
+  by_cases h0 : n = 0 ∨ n > 32
+  · have h1 : n < 1 ∨ n > 32 := by omega
+    rcases h1 with h1 | h1 <;> simp [h0, h1]
   · have h1 : ¬ n < 1 := by omega
+    have h2 : ¬ n > 32 := by omega
+    have h3 : ¬ n = 0 := by omega
+    have h4 : ¬ 32 < n := by omega
     by_cases hp : name = "Pattern"
     · subst hp; simp [h0]
     · by_cases hc : name = "DeviceCMYK"
-      · subst hc; simp [h0]
+      · subst hc; simp [h0, h1, h2, h3, h4]
       · by_cases hs : name = "Separation"
-        · subst hs; simp [h0]
+        · subst hs; simp [h0, h1, h2, h3, h4]
         · by_cases hd : name = "DeviceN"
-          · subst hd; simp [h0]
-          · simp only [h0, if_false, beq_iff_eq, hp, hc, hs, hd, Bool.false_or, h1, decide_false,
-              Bool.or_self, Bool.false_eq_true, or_self]
+          · subst hd; simp [h0, h1, h2, h3, h4]
+          · simp only [h0, if_false, beq_iff_eq, hp, hc, hs, hd, Bool.false_or, h1, h2, decide_false,
+              Bool.or_self, Bool.false_eq_true, or_self, List.contains_cons, List.contains_nil]
             split <;> simp_all
 
 theorem sim_cs (cs : SpaceMap) (st : IState) (ss : SState) (hs : Sim cs st ss) (b : Bool) (name : String)
@@ -659,7 +664,7 @@ theorem sim_bad (cs : SpaceMap) (st : IState) (ss : SState) (hs : Sim cs st ss) 
     first
       | (cases har; done)
       | (exact fixed _ (by decide) (by decide) (Option.some.inj har).symm (by
-            simp [call, doDeviceColour, hbad']))
+            simp [call, doDeviceColour, doSeg, hbad']))
       | (split at har
          · cases har
          · rename_i hnp
